@@ -82,7 +82,24 @@ impl<Read: ReadHalf> ReadConnection<Read> {
         enum ReplyMsg<ReplyParams, ReplyError> {
             Varlink(varlink_service::Error),
             Error(ReplyError),
-            Reply(Reply<ReplyParams>),
+            Reply(SuccessReply<ReplyParams>),
+        }
+
+        // A reply that carries an `error` member is never a successful one, even when neither of
+        // the error types above recognises it.
+        #[derive(Debug, Deserialize)]
+        struct SuccessReply<ReplyParams> {
+            parameters: Option<ReplyParams>,
+            continues: Option<bool>,
+            #[serde(default, rename = "error", deserialize_with = "reject_error")]
+            _error: (),
+        }
+
+        fn reject_error<'de, D>(_: D) -> core::result::Result<(), D::Error>
+        where
+            D: serde::Deserializer<'de>,
+        {
+            Err(serde::de::Error::custom("reply carries an unknown error"))
         }
 
         match self
@@ -92,9 +109,13 @@ impl<Read: ReadHalf> ReadConnection<Read> {
             // Varlink service interface error need to be returned as the top-level error.
             ReplyMsg::Varlink(e) => Err(crate::Error::VarlinkService(e)),
             ReplyMsg::Error(e) => Ok(Err(e)),
-            ReplyMsg::Reply(reply) => {
+            ReplyMsg::Reply(SuccessReply {
+                parameters,
+                continues,
+                ..
+            }) => {
                 // It's a success response.
-                Ok(Ok(reply))
+                Ok(Ok(Reply::new(parameters).set_continues(continues)))
             }
         }
     }
